@@ -299,6 +299,21 @@ def run(chk):
             ok = np.ndim(v) == 1 and len(v) == size
             chk.add(f'{expr}: normalised ket of size {size}', ctx.facts, ir.band(H.eq_sc(H.norm2(v), 1), ir.bconst(ok)) if ok else ir.FALSE, key=f'{expr.split("(")[0]} not a normalised ket',
                     replay=('c18', {'what': 'ket', 'expr': expr, 'size': size}))
+        for coeff in ([1, 1, 1], [1, 2, 2], [3, 0, 4, 0], [1, 1]):
+            chk.configurations += 1
+            v = ST.Wtype(np.array(coeff))                 # integer dtype coefficients
+            n = len(coeff)
+            vp = A.plain(v) if isinstance(v, A.SymArray) else np.asarray(v, dtype=object)
+            nrm2 = sum(c_ * c_ for c_ in coeff)
+            ok = np.ndim(v) == 1 and len(vp) == 2 ** n
+            cl = [H.eq_sc(H.norm2(vp), 1)] if ok else [ir.FALSE]
+            if ok:
+                for k_, c_ in enumerate(coeff):           # amplitude at index 2^k (the code's convention) equals coeff_k / |coeff|
+                    e_ = S.as_sc(vp[2 ** k_])
+                    cl.append(H.eq_sc(e_ * e_ * nrm2, c_ * c_))
+                    cl.append(ir.rcmp('le', ir.ZERO, e_.re))
+            chk.add(f'ST.Wtype(np.array({coeff})) [integer dtype]: normalised, amplitudes coeff_k/|coeff| on the weight-one basis states', ctx.facts, ir.band_all(cl), key='Wtype not normalised',
+                    replay=('c18', {'what': 'ket', 'expr': f'ST.Wtype(np.array({coeff}))', 'size': 2 ** n}))
         for d in (1, 2, 3):
             chk.configurations += 1
             rho = ST.maximally_mixed_state(d)
